@@ -61,7 +61,7 @@ func (m *Model) dirSync() {
 func (m *Model) Apply(e *Ev) {
 	switch e.Call {
 	case "create":
-		if e.Res != "ok" {
+		if e.Res != "ok" && e.Res != "err-left" {
 			return
 		}
 		if old, ok := m.Files[e.Name]; ok && old.VolPresent {
@@ -315,7 +315,7 @@ func Project(log []Ev) []TEv {
 		switch e.Call {
 		case "create":
 			t.Size = (e.N + Chunk - 1) / Chunk
-			t.Mut = e.Res == "ok"
+			t.Mut = e.Res == "ok" || e.Res == "err-left"
 		case "write":
 			if len(e.Data) > 0 {
 				end := int(e.Off) + len(e.Data)
